@@ -176,15 +176,15 @@ def wl_ctor(ctx, rng, case):
 PROP = Prop(
     "C20",
     "exploration",
-    rule=("workload `exhaustive`: for each size 1..20, each of <=9 base states, every operation "
+    rule=("workload `exhaustive`: for each size 1..20 (thorough: 1..48), each of <=9 base states, every operation "
           "(set_bit, clear_bit, []= with 0/1/True/False/2/-1/255, check_bit, is_bit_set, []) at every index -2..n+1 "
           "plus far out-of-range ones, full-state comparison against a Python list after each (this sub-space is enumerated "
           "completely); workload `random`: random operation sequences for sizes 1..70. A case is non-trivial when it executed "
           ">= 5 operations; distinct by hash of (size, operation sequence)."),
     workloads=[
-        Workload("exhaustive", wl_exhaustive, quick=20, thorough=20, exhaustive=True),
+        Workload("exhaustive", wl_exhaustive, quick=20, thorough=48, exhaustive=True),
         Workload("ctor", wl_ctor, quick=9, thorough=9),
-        Workload("random", wl_random, quick=400, thorough=20000),
+        Workload("random", wl_random, quick=400, thorough=300000),
     ],
     assumptions=["values passed to []= are ints/bools, as the signature says",
                  "any of IndexError/ValueError/TypeError counts as 'rejected with an error'"],
